@@ -18,6 +18,7 @@ theorem outs_sound (p : Prog) (s : St) (o : Out) (h : Run p s o) : o ∈ outs p 
   | ret s => simp [outs]
   | brk s => simp [outs]
   | cont s => simp [outs]
+  | act k s => simp [outs]
   | unknown s => simp [outs]
   | seqGo a b s s' o _ _ ih1 ih2 =>
     simp only [outs, List.mem_flatMap]
@@ -140,5 +141,151 @@ theorem early_return_keeps_the_lock : safe exLeak = false ∧ Run exLeak {} (.re
 
 /-- a read lock taken again inside the read lock (the seeded change C19k) -/
 example : safe (.seq (.lock 1) (.seq (.lock 1) (.seq (.unlock 1) (.unlock 1)))) = false := by decide
+
+/-! ### what is done under a mutex -/
+
+theorem runT_run (p : Prog) (s : St) (o : Out) (t : List Nat) (h : RunT p s o t) : Run p s o := by
+  induction h with
+  | skip s => exact .skip s
+  | lockOk m s hm => exact .lockOk m s hm
+  | lockBad m s hm => exact .lockBad m s hm
+  | unlockOk m s hm => exact .unlockOk m s hm
+  | unlockBad m s hm => exact .unlockBad m s hm
+  | dunlock m s => exact .dunlock m s
+  | ret s => exact .ret s
+  | brk s => exact .brk s
+  | cont s => exact .cont s
+  | act k s => exact .act k s
+  | unknown s => exact .unknown s
+  | seqGo a b s s' o t1 t2 _ _ ih1 ih2 => exact .seqGo a b s s' o ih1 ih2
+  | seqStop a b s o t _ hn ih => exact .seqStop a b s o ih hn
+  | iteL a b s o t _ ih => exact .iteL a b s o ih
+  | iteR a b s o t _ ih => exact .iteR a b s o ih
+  | loopEnd a s => exact .loopEnd a s
+  | loopNext a s s' o t1 t2 _ _ ih1 ih2 => exact .loopNext a s s' o ih1 ih2
+  | loopCont a s s' o t1 t2 _ _ ih1 ih2 => exact .loopCont a s s' o ih1 ih2
+  | loopBrk a s s' t _ ih => exact .loopBrk a s s' ih
+  | loopRet a s s' t _ ih => exact .loopRet a s s' ih
+  | loopBad a s t _ ih => exact .loopBad a s ih
+  | catchBrk a s s' t _ ih => exact .catchBrk a s s' ih
+  | catchOther a s o t _ hn ih => exact .catchOther a s o ih hn
+
+theorem loop_clean (a : Prog) (s : St) (hb : Out.bad ∉ outs (.loop a) s) :
+    Out.bad ∉ outs a s ∧ (∀ s', Out.normal s' ∈ outs a s → s' = s) ∧ (∀ s', Out.continued s' ∈ outs a s → s' = s) := by
+  simp only [outs] at hb
+  split at hb
+  · rename_i hall
+    refine ⟨?_, ?_, ?_⟩
+    · intro h
+      exact hb (List.mem_cons_of_mem _ (List.mem_map.mpr ⟨_, h, rfl⟩))
+    · intro s' h
+      have := List.all_eq_true.mp hall _ h
+      simpa using this
+    · intro s' h
+      have := List.all_eq_true.mp hall _ h
+      simpa using this
+  · exact absurd (List.mem_singleton.mpr rfl) hb
+
+/-- **Everything an execution does under a mutex is among `acts`**, for a skeleton the checker does not refuse. -/
+theorem acts_sound (p : Prog) (s : St) (o : Out) (t : List Nat) (h : RunT p s o t) (hb : Out.bad ∉ outs p s) :
+    ∀ k ∈ t, k ∈ acts p s := by
+  induction h with
+  | skip s => simp
+  | lockOk m s hm => simp
+  | lockBad m s hm => simp
+  | unlockOk m s hm => simp
+  | unlockBad m s hm => simp
+  | dunlock m s => simp
+  | ret s => simp
+  | brk s => simp
+  | cont s => simp
+  | unknown s => simp
+  | act k s => simp [acts]
+  | seqGo a b s s' o t1 t2 h1 _ ih1 ih2 =>
+    have hba : Out.bad ∉ outs a s := by
+      intro hx; apply hb; simp only [outs, List.mem_flatMap]; exact ⟨_, hx, by simp⟩
+    have hn : Out.normal s' ∈ outs a s := by
+      rcases outs_sound a s _ (runT_run _ _ _ _ h1) with h | h
+      · exact h
+      · exact absurd h hba
+    have hbb : Out.bad ∉ outs b s' := by
+      intro hx; apply hb; simp only [outs, List.mem_flatMap]; exact ⟨_, hn, hx⟩
+    intro k hk
+    simp only [acts, List.mem_append, List.mem_flatMap]
+    rcases List.mem_append.mp hk with hk | hk
+    · exact Or.inl (ih1 hba k hk)
+    · exact Or.inr ⟨_, hn, ih2 hbb k hk⟩
+  | seqStop a b s o t _ hn ih =>
+    have hba : Out.bad ∉ outs a s := by
+      intro hx; apply hb; simp only [outs, List.mem_flatMap]; exact ⟨_, hx, by simp⟩
+    intro k hk
+    simp only [acts, List.mem_append]
+    exact Or.inl (ih hba k hk)
+  | iteL a b s o t _ ih =>
+    have hba : Out.bad ∉ outs a s := fun hx => hb (by simp only [outs, List.mem_append]; exact Or.inl hx)
+    intro k hk
+    simp only [acts, List.mem_append]
+    exact Or.inl (ih hba k hk)
+  | iteR a b s o t _ ih =>
+    have hbb : Out.bad ∉ outs b s := fun hx => hb (by simp only [outs, List.mem_append]; exact Or.inr hx)
+    intro k hk
+    simp only [acts, List.mem_append]
+    exact Or.inr (ih hbb k hk)
+  | loopEnd a s => simp
+  | loopNext a s s' o t1 t2 h1 _ ih1 ih2 =>
+    obtain ⟨hba, hn, _⟩ := loop_clean a s hb
+    have hmem : Out.normal s' ∈ outs a s := by
+      rcases outs_sound a s _ (runT_run _ _ _ _ h1) with h | h
+      · exact h
+      · exact absurd h hba
+    have := hn s' hmem
+    subst this
+    intro k hk
+    rcases List.mem_append.mp hk with hk | hk
+    · simpa [acts] using ih1 hba k hk
+    · exact ih2 hb k hk
+  | loopCont a s s' o t1 t2 h1 _ ih1 ih2 =>
+    obtain ⟨hba, _, hc⟩ := loop_clean a s hb
+    have hmem : Out.continued s' ∈ outs a s := by
+      rcases outs_sound a s _ (runT_run _ _ _ _ h1) with h | h
+      · exact h
+      · exact absurd h hba
+    have := hc s' hmem
+    subst this
+    intro k hk
+    rcases List.mem_append.mp hk with hk | hk
+    · simpa [acts] using ih1 hba k hk
+    · exact ih2 hb k hk
+  | loopBrk a s s' t _ ih =>
+    intro k hk; simpa [acts] using ih (loop_clean a s hb).1 k hk
+  | loopRet a s s' t _ ih =>
+    intro k hk; simpa [acts] using ih (loop_clean a s hb).1 k hk
+  | loopBad a s t _ ih =>
+    intro k hk; simpa [acts] using ih (loop_clean a s hb).1 k hk
+  | catchBrk a s s' t _ ih =>
+    have hba : Out.bad ∉ outs a s := fun hx => hb (by simp only [outs]; exact List.mem_map.mpr ⟨_, hx, rfl⟩)
+    intro k hk; simpa [acts] using ih hba k hk
+  | catchOther a s o t _ hn ih =>
+    have hba : Out.bad ∉ outs a s := fun hx => hb (by simp only [outs]; exact List.mem_map.mpr ⟨_, hx, rfl⟩)
+    intro k hk; simpa [acts] using ih hba k hk
+
+/-- a skeleton the checker accepts, for which `acts` finds nothing: no execution does anything that may wait for
+    another party while it holds a mutex -/
+theorem nothing_waits_under_a_mutex (p : Prog) (hs : safe p = true) (ha : acts p {} = []) (o : Out) (t : List Nat)
+    (h : RunT p {} o t) : t = [] := by
+  have hb : Out.bad ∉ outs p {} := by
+    intro hx
+    have := List.all_eq_true.mp hs _ hx
+    simp [exitOk] at this
+  cases t with
+  | nil => rfl
+  | cons k t' =>
+    have := acts_sound p {} o (k :: t') h hb k (List.mem_cons_self ..)
+    rw [ha] at this
+    cases this
+
+/-- `RLock; ch <- msg; RUnlock` (the seeded changes C16j / C12n): the send is under the mutex -/
+example : acts (.seq (.lock 1) (.seq (.act 0) (.unlock 1))) {} = [0] := by decide
+example : acts (.seq (.lock 1) (.seq (.unlock 1) (.act 0))) {} = [] := by decide
 
 end QiVerif.Locks
